@@ -1015,3 +1015,28 @@ fn c08_lock_dir_volume_handles() {
 fn n_is_zero_dummy() -> bool {
     true
 }
+
+/// With the open-file table full, open_file_in_dir is refused with
+/// TooManyOpenFiles before it looks at the directory: nothing is read, written
+/// or changed - one concrete mode per harness (a create and a truncate mode,
+/// whose side effects would otherwise reach the medium first).
+fn full_table_refusal(mode: Mode) {
+    let vm = any_tables(1, 1, 2, true);
+    let s0 = snap(&vm);
+    let name = ShortFileName { contents: *b"NEW     TXT" };
+    let r = vm.open_file_in_dir(RawDirectory(Handle(s0.d0)), &name, mode);
+    assert!(matches!(r, Err(Error::TooManyOpenFiles)), "limits: open_file_in_dir at the file limit must fail with TooManyOpenFiles");
+    assert!(snap(&vm).same(&s0), "limits: a refused open changed state");
+    assert!(dev_untouched(&vm), "modes.refused: an open refused for lack of a free handle touched the medium first");
+    kani::cover!(r.is_err());
+}
+#[kani::proof]
+#[kani::unwind(13)]
+fn c07_full_table_refused_create() {
+    full_table_refusal(Mode::ReadWriteCreateOrTruncate);
+}
+#[kani::proof]
+#[kani::unwind(13)]
+fn c07_full_table_refused_truncate() {
+    full_table_refusal(Mode::ReadWriteTruncate);
+}
